@@ -31,7 +31,8 @@ V2_HOLD_BAND = Fraction(1, 10**9)  # accept/reject either way when the requested
 EPS64 = Fraction(1, 2**52)
 
 PHASE_ORDER = ["initialize", "before_bar", "trigger", "on_bar", "after_bar", "notify"]
-V2_POOLS = [("WETH", "USDC"), ("WETH", "USDC"), ("WBTC", "USDC"), ("WAVAX", "USDC.E"), ("BTC.B", "USDC")]
+V2_POOLS = [("WETH", "USDC"), ("WETH", "USDC"), ("WBTC", "USDC"), ("WAVAX", "USDC.E"), ("BTC.B", "USDC"),
+            ("WETH", "WETH"), ("WBTC", "WBTC")]  # the last two: single-token pools, both sides paid from / into one wallet entry
 CRASH_TYPES = ("TypeError", "AttributeError", "KeyError", "InvalidOperation", "ZeroDivisionError", "DivisionByZero", "IndexError",
                "ValueError", "OverflowError", "NameError", "DivisionUndefined")
 
@@ -540,7 +541,8 @@ class GmxOracle(Oracle):
         sim.state(("v2", "deposit", sign, ref["capped"], ref["crossover"], ref["virtual"], sides, ref["reverts"], ok))
         wl0, ws0 = self.pre["wallet"].get(self.mw[name]["long"], Decimal(0)), self.pre["wallet"].get(self.mw[name]["short"], Decimal(0))
         if not ok:
-            if call["long"] > wl0 or call["short"] > ws0:
+            same = self.mw[name]["long"] == self.mw[name]["short"]
+            if call["long"] > wl0 or call["short"] > ws0 or (same and call["long"] + call["short"] > wl0):
                 sim.count("fault:reject:wallet_short")
             return
         sim.count("probe:v2_deposit_impact_" + sign)
@@ -571,7 +573,10 @@ class GmxOracle(Oracle):
                 sim.violate("c17.v2_price_impact", f"deposit:price_impact:{'crossover' if ref['crossover'] else 'same_side'}:{'virtual' if ref['virtual'] else 'pool'}",
                             got=_f(gi), **detail)
         # bookkeeping
-        for tokname, asked, w0 in ((self.mw[name]["long"], L, wl0), (self.mw[name]["short"], S, ws0)):
+        sides_ = [(self.mw[name]["long"], L, wl0), (self.mw[name]["short"], S, ws0)]
+        if sides_[0][0] == sides_[1][0]:  # single-token pool: one wallet entry pays both sides
+            sides_ = [(sides_[0][0], L + S, wl0)]
+        for tokname, asked, w0 in sides_:
             w1 = post["wallet"].get(tokname, Decimal(0))
             paid = Fraction(w0) - Fraction(w1)
             snapped = w1 == 0 and w0 != 0 and abs(Fraction(w0) - asked) < Fraction(1, 10**5) * abs(Fraction(w0))
@@ -610,7 +615,10 @@ class GmxOracle(Oracle):
             sim.violate("c17.v2_redeem_amount", "withdraw:long_amount", **detail)
         if abs(gs - ref["short_out"]) > V2_REL * abs(ref["short_out"]):
             sim.violate("c17.v2_redeem_amount", "withdraw:short_amount", **detail)
-        for tokname, out in ((self.mw[name]["long"], gl), (self.mw[name]["short"], gs)):
+        outs_ = [(self.mw[name]["long"], gl), (self.mw[name]["short"], gs)]
+        if outs_[0][0] == outs_[1][0]:
+            outs_ = [(outs_[0][0], gl + gs)]
+        for tokname, out in outs_:
             w0, w1 = self.pre["wallet"].get(tokname, Decimal(0)), post["wallet"].get(tokname, Decimal(0))
             if abs(Fraction(w1) - Fraction(w0) - out) > V2_REL * abs(out) + DEC_BAND * max(abs(Fraction(w0)), abs(Fraction(w1))):
                 sim.violate("c17.v2_bookkeeping", "withdraw:wallet_delta", token=tokname, returned=_f(out), delta=_f(Fraction(w1) - Fraction(w0)))
